@@ -74,3 +74,16 @@ pub fn catch<T>(f: impl FnOnce() -> T) -> Result<T, String> {
         }
     }
 }
+
+/// Small stable classification of decoder errors: `eof`, `oom`, `other`.
+pub fn err_class(e: &(dyn std::error::Error + 'static)) -> &'static str {
+    let s = e.to_string().to_lowercase();
+    let d = format!("{:?}", e).to_lowercase();
+    if d.contains("outofmemory") || s.contains("failed to allocate") || s.contains("out of memory") {
+        "oom"
+    } else if d.contains("unexpectedeof") || s.contains("unexpected end") || s.contains("eof") {
+        "eof"
+    } else {
+        "other"
+    }
+}
